@@ -24,6 +24,7 @@ import (
 	"runtime"
 	"sort"
 	"strings"
+	"sync"
 	"testing"
 	"time"
 
@@ -169,6 +170,7 @@ type world struct {
 	ops0       int // backend operations issued by client 0 (fault part)
 	killed     bool
 	uuids      map[string]int
+	uuidsMu    sync.Mutex // labels are computed by the threads themselves, possibly side by side when an event wakes several
 	finished   []bool
 	clientsEnd chan int
 }
@@ -178,6 +180,8 @@ var uuidRe = regexp.MustCompile(`[0-9a-f]{8}-[0-9a-f]{4}-[0-9a-f]{4}-[0-9a-f]{4}
 func (w *world) label(o *vfsx.Op) string {
 	canon := func(p string) string {
 		return uuidRe.ReplaceAllStringFunc(p, func(u string) string {
+			w.uuidsMu.Lock()
+			defer w.uuidsMu.Unlock()
 			n, ok := w.uuids[u]
 			if !ok {
 				n = len(w.uuids) + 1
